@@ -27,7 +27,7 @@ RULE = ('Cases are (meta-pattern P, variable v, judgement J). P ranges over all 
         'tested on up to 24 admissible instances. distinct_nontrivial = distinct (P, v, J) with J answering True and P containing a metavariable or binder.')
 ASSUMPTIONS = ['instances are drawn from a finite pool of small concrete patterns biased to the variables in play; app_ctx_holes are empty (A11)']
 EXHAUSTIVE = {'quick': 'all meta-patterns with <=4 nodes (see rule) x variables {0,1} x 4 Rust judgements', 'thorough': 'same with <=5 nodes'}
-FLOORS = {'quick': {'rust:e_fresh:true': 500, 'rust:s_fresh:true': 500, 'rust:positive:true': 500, 'rust:negative:true': 500, 'rust:instances_checked': 20000,
+FLOORS = {'quick': {'py:stacked_same_variable_substitutions': 5000, 'rust:e_fresh:true': 500, 'rust:s_fresh:true': 500, 'rust:positive:true': 500, 'rust:negative:true': 500, 'rust:instances_checked': 20000,
                     'rust:stacked_substitutions': 200, 'py:evar_is_free:true': 2000, 'py:instances_checked': 20000, 'py:notation_cases': 200,
                     'py:class:EVar': 100, 'py:class:SVar': 100, 'py:class:Symbol': 100, 'py:class:Implies': 500, 'py:class:App': 500, 'py:class:Exists': 500, 'py:class:Mu': 300,
                     'py:class:MetaVar': 300, 'py:class:ESubst': 200, 'py:class:SSubst': 200, 'py:class:Instantiate': 200, 'py:notation_vs_expansion': 1000, 'py:partial_instantiate_nodes': 200}}
@@ -86,6 +86,36 @@ def classify(P, judgement, side):
     return f'{side}_{judgement}_unsound:' + ('+'.join(feats[:2]) if feats else 'plain')
 
 
+def stacked_same_variable(rng, sym):
+    """two (or three) pending substitutions for the SAME variable stacked on one metavariable, the inner plug mentioning that variable
+    again (so the outer one is not vacuous), the outer plug bringing in yet another variable; constraint lists chosen so that the
+    interesting variables are fresh in the metavariable itself"""
+    kind = rng.choice('es')
+    i = rng.choice((0, 1))
+    x, y = rng.sample((0, 1, 2), 2)
+    V, S = (tb.ev, 'es') if kind == 'e' else (tb.sv, 'ss')
+    mk = tb.es if kind == 'e' else tb.ss
+    fresh = tuple(sorted({y} | ({x} if rng.random() < 0.2 else set())))
+    base = tb.mv(i, ef=fresh if kind == 'e' else (), sf=fresh if kind == 's' else (),
+                 pos=tuple(v for v in (0, 1, 2) if rng.random() < 0.2), neg=tuple(v for v in (0, 1, 2) if rng.random() < 0.2))
+    s_ = tb.sy(sym)
+    p1 = rng.choice((tb.ap(V(x), V(x)), tb.ap(s_, V(x)), tb.im(V(x), s_), tb.ap(V(x), s_)))
+    p2 = rng.choice((V(y), tb.ap(s_, V(y)), tb.im(V(y), V(y)), tb.neg(V(y))))
+    e = mk(mk(base, x, p1), x, p2)
+    if rng.random() < 0.3:
+        e = mk(e, rng.choice((x, y, 3 - x - y)), rng.choice((s_, V(x), V(y))))
+        if e[3] == V(e[2]):
+            e = e[1]
+    r = rng.random()
+    if r < 0.3:
+        e = tb.im(e, s_)
+    elif r < 0.5:
+        e = tb.ap(s_, e)
+    elif r < 0.6:
+        e = tb.ex(rng.choice((x, y)), e) if kind == 'e' else tb.im(tb.im(e, s_), s_)
+    return e
+
+
 def shard(ctx):
     rng = ctx.rng
     pool = gp.concrete_pool(rng, 200, 3, evs=(0, 1, 2), svs=(0, 1, 2), syms=(0,))
@@ -103,6 +133,8 @@ def shard(ctx):
         e = gp.rand_meta(rng, rng.randint(2, 5), syms=(0,), wf=rng.random() < 0.7, constrained=0.6)
         if tb.size(e) <= 80:
             pats.append((e, 'random'))
+    for _ in range(ctx.scale(8000, 60000)):
+        pats.append((stacked_same_variable(rng, 0), 'random'))
     reqs = []
     meta = []
     for e, src in pats:
@@ -147,6 +179,9 @@ def shard(ctx):
             e = gp.rand_meta(rng, rng.randint(1, 5), syms=('a', 'b'), wf=rng.random() < 0.7, constrained=0.6)
         if tb.size(e) <= 120:
             cases.append((e, 'random'))
+    for _ in range(ctx.scale(12000, 90000)):
+        cases.append((stacked_same_variable(rng, 'a'), 'random'))
+        ctx.count('py:stacked_same_variable_substitutions')
     for e, src in cases:
         spell = []
         if src == 'random' and rng.random() < 0.2 and tb.metavar_ids(e):
